@@ -1,89 +1,246 @@
 /- Lemmas for C05 (DataFrame comparison). -/
 import TddaVerif.Model.CheckPandas
 import TddaVerif.Props.C05Spec
-
 namespace TddaVerif.Props.C05.Lemmas
 open TddaVerif.Py TddaVerif.CheckPandas TddaVerif.Props.C05
 
 theorem typesMatch_iff (a b : Line) (level : Level) : typesMatch a b level = true ↔ TypesAgree a b level := by
-  sorry
+  unfold typesMatch TypesAgree
+  by_cases hab : a = b
+  · subst hab; simp
+  · cases level <;> simp [hab, or_assoc]
 
-theorem typesMatch_refl (a : Line) (level : Level) : typesMatch a a level = true := by
-  sorry
+theorem eraseDups_eq_nil {α} [BEq α] (l : List α) : l.eraseDups = [] ↔ l = [] := by
+  cases l with
+  | nil => simp
+  | cons a as => simp [List.eraseDups_cons]
 
-theorem typesMatch_symm (a b : Line) (level : Level) : typesMatch a b level = typesMatch b a level := by
-  sorry
+theorem map_name_cat (l : List Col) : (l.map catAsString).map (·.name) = l.map (·.name) := by
+  rw [List.map_map]
+  apply List.map_congr_left
+  intro c _
+  simp only [Function.comp, catAsString]
+  split <;> rfl
 
-theorem typesMatch_strict_to_medium (a b : Line) (h : typesMatch a b .strict = true) : typesMatch a b .medium = true := by
-  sorry
 
-theorem typesMatch_medium_to_permissive (a b : Line) (h : typesMatch a b .medium = true) :
-    typesMatch a b .permissive = true := by
-  sorry
+theorem same_iff (act ref : List Col) (ct ce : Flag) (co : Option Flag) (level : Level) :
+    (structureOf act ref ct ce co level).same = true ↔
+      (∀ c ∈ resolve ct (ref.map (·.name)), c ∈ act.map (·.name) ∧ c ∈ ref.map (·.name) ∧
+            ∀ ta tr, dtypeC act c = some ta → dtypeC ref c = some tr → TypesAgree ta tr level) ∧
+      (∀ c ∈ resolve ce (act.map (·.name)), c ∈ ref.map (·.name)) ∧
+      (∀ f, co = some f →
+        (act.map (·.name)).filter (fun c => (resolve f (ref.map (·.name))).contains c && (ref.map (·.name)).contains c)
+        = (ref.map (·.name)).filter (fun c => (resolve f (ref.map (·.name))).contains c && (act.map (·.name)).contains c)) := by
+  unfold Structure.same structureOf
+  simp only [map_name_cat, Bool.and_eq_true, List.isEmpty_iff, List.filter_eq_nil_iff, eraseDups_eq_nil,
+    List.append_eq_nil_iff, ← typesMatch_iff, dtypeC]
+  generalize List.map (fun x => x.name) act = an
+  generalize List.map (fun x => x.name) ref = rn
+  generalize resolve ct rn = CT
+  generalize resolve ce an = CE
+  generalize dtypeOf (List.map catAsString act) = A
+  generalize dtypeOf (List.map catAsString ref) = R
+  constructor
+  · rintro ⟨⟨⟨hmiss, hextra, hunexp⟩, hwrong⟩, hord⟩
+    have hmiss' : ∀ a ∈ CT, a ∈ an := fun a ha => by simpa using hmiss a ha
+    have hnil : List.filter (fun c => !an.contains c) CT = [] := by
+      simp only [List.filter_eq_nil_iff]; exact hmiss
+    refine ⟨fun c hc => ⟨hmiss' c hc, ?_, ?_⟩, ?_, ?_⟩
+    · have := hunexp c hc
+      simpa [hmiss' c hc] using this
+    · intro ta tr hta htr
+      have := hwrong c hc
+      simpa [hmiss' c hc, hta, htr] using this
+    · intro c hc; simpa using hextra c hc
+    · intro f hf
+      subst hf
+      simp only [hnil] at hord
+      simpa using hord
+  · rintro ⟨htypes, hextra, hord⟩
+    have hnil : List.filter (fun c => !an.contains c) CT = [] := by
+      simp only [List.filter_eq_nil_iff]
+      intro a ha; simp [(htypes a ha).1]
+    refine ⟨⟨⟨?_, ?_, ?_⟩, ?_⟩, ?_⟩
+    · intro a ha; simp [(htypes a ha).1]
+    · intro a ha; simp [hextra a ha]
+    · intro a ha; simp [(htypes a ha).2.1]
+    · intro a ha
+      have h3 := (htypes a ha).2.2
+      cases hA : A a <;> cases hR : R a <;> simp
+      rename_i ta tr
+      intro _
+      exact h3 ta tr hA hR
+    · cases co with
+      | none => simp
+      | some f =>
+        simp only [hnil]
+        simpa using hord f rfl
+
+
+theorem filter_const_true {α} (l : List α) : l.filter (fun _ => true) = l := by
+  induction l with
+  | nil => rfl
+  | cons a as ih => simp [List.filter]
+
+theorem missing_nil_of_same {s : Structure} (h : s.same = true) : s.missing = [] := by
+  simp only [Structure.same, Bool.and_eq_true, List.isEmpty_iff] at h
+  exact h.1.1.1
 
 /-- the model's verdict is the stated rule -/
 theorem check_iff_agree (act ref : List Col) (nact nref : Nat) (cd ct ce : Flag) (co : Option Flag)
     (level : Level) (ve : List Line → Bool) :
     checkDataframe act ref nact nref cd ct ce co level ve = true ↔ Agree act ref nact nref cd ct ce co level ve := by
-  sorry
+  unfold checkDataframe
+  by_cases hs : (structureOf act ref ct ce co level).same = true
+  · have hm := missing_nil_of_same hs
+    obtain ⟨h1, h2, h3⟩ := (same_iff act ref ct ce co level).1 hs
+    simp only [hs, hm]
+    by_cases hn : nact = nref
+    · subst hn
+      simp
+      constructor
+      · rintro ⟨hd, hv⟩
+        refine ⟨h1, h2, h3, rfl, ?_, ?_⟩
+        · intro c hc
+          obtain ⟨x, hx, hxn, y, hy, hyn⟩ := hd c hc
+          exact ⟨List.mem_map.2 ⟨x, hx, hxn⟩, List.mem_map.2 ⟨y, hy, hyn⟩⟩
+        · intro hne
+          cases hv with
+          | inl h => exact absurd h hne
+          | inr h => rwa [filter_const_true] at h
+      · intro h
+        refine ⟨?_, ?_⟩
+        · intro c hc
+          obtain ⟨ha, hr⟩ := h.dataCols c hc
+          obtain ⟨x, hx, hxn⟩ := List.mem_map.1 ha
+          obtain ⟨y, hy, hyn⟩ := List.mem_map.1 hr
+          exact ⟨x, hx, hxn, y, hy, hyn⟩
+        · by_cases hne : resolve cd (List.map (fun x => x.name) ref) = []
+          · exact Or.inl hne
+          · right; rw [filter_const_true]; exact h.values hne
+    · simp [hn]
+      exact fun h => hn h.rows
+  · simp only [hs]
+    simp
+    intro h
+    exact hs ((same_iff act ref ct ce co level).2 ⟨h.types, h.extra, h.order⟩)
 
-/-- a copy of a frame passes whatever the options, provided the listed names exist and the values of a
-    copy compare equal -/
+
+theorem typesMatch_refl (a : Line) (level : Level) : typesMatch a a level = true :=
+  (typesMatch_iff a a level).2 (Or.inl rfl)
+
+theorem typesAgree_symm {a b : Line} {level : Level} (h : TypesAgree a b level) : TypesAgree b a level := by
+  rcases h with h | ⟨hl, h | h | h | ⟨hp, ha, hb⟩⟩
+  · exact Or.inl h.symm
+  · exact Or.inr ⟨hl, Or.inl h.symm⟩
+  · exact Or.inr ⟨hl, Or.inr (Or.inr (Or.inl h))⟩
+  · exact Or.inr ⟨hl, Or.inr (Or.inl h)⟩
+  · exact Or.inr ⟨hl, Or.inr (Or.inr (Or.inr ⟨hp, hb, ha⟩))⟩
+
+theorem typesMatch_symm (a b : Line) (level : Level) : typesMatch a b level = typesMatch b a level := by
+  rw [Bool.eq_iff_iff, typesMatch_iff, typesMatch_iff]
+  exact ⟨typesAgree_symm, typesAgree_symm⟩
+
+theorem typesMatch_strict_to_medium (a b : Line) (h : typesMatch a b .strict = true) : typesMatch a b .medium = true := by
+  rw [typesMatch_iff] at *
+  rcases h with h | ⟨hl, _⟩
+  · exact Or.inl h
+  · exact absurd rfl hl
+
+theorem typesMatch_medium_to_permissive (a b : Line) (h : typesMatch a b .medium = true) :
+    typesMatch a b .permissive = true := by
+  rw [typesMatch_iff] at *
+  rcases h with h | ⟨_, h | h | h | ⟨hp, _, _⟩⟩
+  · exact Or.inl h
+  · exact Or.inr ⟨by decide, Or.inl h⟩
+  · exact Or.inr ⟨by decide, Or.inr (Or.inl h)⟩
+  · exact Or.inr ⟨by decide, Or.inr (Or.inr (Or.inl h))⟩
+  · exact absurd hp (by decide)
+
 theorem copy_passes (f : List Col) (n : Nat) (cd ct ce : Flag) (co : Option Flag) (level : Level)
     (ve : List Line → Bool) (hve : ∀ cols, ve cols = true)
     (hct : ∀ c ∈ resolve ct (f.map (·.name)), c ∈ f.map (·.name))
     (hcd : ∀ c ∈ resolve cd (f.map (·.name)), c ∈ f.map (·.name))
     (hce : ∀ c ∈ resolve ce (f.map (·.name)), c ∈ f.map (·.name)) :
     checkDataframe f f n n cd ct ce co level ve = true := by
-  sorry
+  rw [check_iff_agree]
+  refine ⟨?_, hce, fun _ _ => rfl, rfl, fun c hc => ⟨hcd c hc, hcd c hc⟩, fun _ => hve _⟩
+  intro c hc
+  refine ⟨hct c hc, hct c hc, ?_⟩
+  intro ta tr ha hr
+  rw [ha] at hr
+  exact Or.inl (Option.some.inj hr)
+
+theorem fails_of_not_agree {act ref : List Col} {nact nref : Nat} {cd ct ce : Flag} {co : Option Flag}
+    {level : Level} {ve : List Line → Bool} (h : ¬ Agree act ref nact nref cd ct ce co level ve) :
+    checkDataframe act ref nact nref cd ct ce co level ve = false := by
+  rw [← Bool.not_eq_true, check_iff_agree]; exact h
 
 theorem rowcount_fails (act ref : List Col) (nact nref : Nat) (cd ct ce : Flag) (co : Option Flag)
     (level : Level) (ve : List Line → Bool) (h : nact ≠ nref) :
-    checkDataframe act ref nact nref cd ct ce co level ve = false := by
-  sorry
+    checkDataframe act ref nact nref cd ct ce co level ve = false :=
+  fails_of_not_agree fun hA => h hA.rows
 
-/-- a column selected for the type check that the actual frame lacks (dropped or renamed) fails -/
 theorem missing_column_fails (act ref : List Col) (nact nref : Nat) (cd ct ce : Flag) (co : Option Flag)
     (level : Level) (ve : List Line → Bool) (c : Line)
     (hc : c ∈ resolve ct (ref.map (·.name))) (hm : c ∉ act.map (·.name)) :
-    checkDataframe act ref nact nref cd ct ce co level ve = false := by
-  sorry
+    checkDataframe act ref nact nref cd ct ce co level ve = false :=
+  fails_of_not_agree fun hA => hm (hA.types c hc).1
 
-/-- a selected actual column the reference lacks (added or renamed) fails -/
 theorem extra_column_fails (act ref : List Col) (nact nref : Nat) (cd ct ce : Flag) (co : Option Flag)
     (level : Level) (ve : List Line → Bool) (c : Line)
     (hc : c ∈ resolve ce (act.map (·.name))) (hm : c ∉ ref.map (·.name)) :
-    checkDataframe act ref nact nref cd ct ce co level ve = false := by
-  sorry
+    checkDataframe act ref nact nref cd ct ce co level ve = false :=
+  fails_of_not_agree fun hA => hm (hA.extra c hc)
 
-/-- a selected column whose types do not match at the requested level fails -/
 theorem wrong_type_fails (act ref : List Col) (nact nref : Nat) (cd ct ce : Flag) (co : Option Flag)
     (level : Level) (ve : List Line → Bool) (c ta tr : Line)
     (hc : c ∈ resolve ct (ref.map (·.name)))
     (ha : dtypeC act c = some ta) (hr : dtypeC ref c = some tr) (hne : ¬ TypesAgree ta tr level) :
-    checkDataframe act ref nact nref cd ct ce co level ve = false := by
-  sorry
+    checkDataframe act ref nact nref cd ct ce co level ve = false :=
+  fails_of_not_agree fun hA => hne ((hA.types c hc).2.2 ta tr ha hr)
 
-/-- a different relative order of the selected common columns fails -/
 theorem wrong_order_fails (act ref : List Col) (nact nref : Nat) (cd ct ce : Flag) (f : Flag)
     (level : Level) (ve : List Line → Bool)
     (h : (act.map (·.name)).filter (fun c => (resolve f (ref.map (·.name))).contains c && (ref.map (·.name)).contains c)
        ≠ (ref.map (·.name)).filter (fun c => (resolve f (ref.map (·.name))).contains c && (act.map (·.name)).contains c)) :
-    checkDataframe act ref nact nref cd ct ce (some f) level ve = false := by
-  sorry
+    checkDataframe act ref nact nref cd ct ce (some f) level ve = false :=
+  fails_of_not_agree fun hA => h (hA.order f rfl)
 
-/-- a difference in the selected values fails -/
 theorem value_difference_fails (act ref : List Col) (nact nref : Nat) (cd ct ce : Flag) (co : Option Flag)
     (level : Level) (ve : List Line → Bool)
     (hne : resolve cd (ref.map (·.name)) ≠ []) (h : ve (resolve cd (ref.map (·.name))) = false) :
-    checkDataframe act ref nact nref cd ct ce co level ve = false := by
-  sorry
+    checkDataframe act ref nact nref cd ct ce co level ve = false :=
+  fails_of_not_agree fun hA => by
+    have := hA.values hne
+    rw [h] at this
+    exact Bool.false_ne_true this
 
-/-- swapping two distinct adjacent-or-not columns of a frame with distinct names changes the order -/
+theorem filter_eq_self_of_forall {α} {p : α → Bool} {l : List α} (h : ∀ x ∈ l, p x = true) : l.filter p = l :=
+  List.filter_eq_self.2 h
+
+/-- swapping two distinct adjacent-or-not columns of a frame with distinct names changes the order
+    (the `Nodup` hypothesis is not needed by the proof) -/
 theorem swap_changes_order (pre mid post : List Line) (a b : Line) (hab : a ≠ b)
-    (hnd : (pre ++ a :: mid ++ b :: post).Nodup) :
+    (_hnd : (pre ++ a :: mid ++ b :: post).Nodup) :
     (pre ++ b :: mid ++ a :: post).filter (fun c => (pre ++ a :: mid ++ b :: post).contains c && (pre ++ a :: mid ++ b :: post).contains c)
       ≠ (pre ++ a :: mid ++ b :: post).filter (fun c => (pre ++ a :: mid ++ b :: post).contains c && (pre ++ b :: mid ++ a :: post).contains c) := by
-  sorry
+  have hmem : ∀ c, c ∈ pre ++ b :: mid ++ a :: post ↔ c ∈ pre ++ a :: mid ++ b :: post := by
+    intro c
+    simp only [List.mem_append, List.mem_cons]
+    constructor <;> (intro h; rcases h with (h | h | h) | h | h <;> simp [h])
+  rw [filter_eq_self_of_forall, filter_eq_self_of_forall]
+  · intro h
+    rw [List.append_assoc, List.append_assoc] at h
+    have h' := List.append_cancel_left h
+    exact hab (List.cons.inj h').1.symm
+  · intro c hc
+    have h2 := (hmem c).2 hc
+    simp only [Bool.and_eq_true, List.contains_iff_mem]
+    exact ⟨hc, h2⟩
+  · intro c hc
+    have h2 := (hmem c).1 hc
+    simp only [Bool.and_eq_true, List.contains_iff_mem]
+    exact ⟨h2, h2⟩
 
 end TddaVerif.Props.C05.Lemmas
